@@ -1,6 +1,7 @@
 package kernel
 
 import (
+	"runtime"
 	"encoding/json"
 	"fmt"
 	"os"
@@ -58,6 +59,7 @@ type ReplayFile struct {
 	Violation   *Violation     `json:"violation"`
 	LogHash     string         `json:"log_hash"`
 	Trace       []string       `json:"trace"`
+	Procs       int            `json:"gomaxprocs,omitempty"` // GOMAXPROCS of the process that found it (replay uses the same)
 }
 
 // Shrink minimises a failing tape while the violation class persists.
@@ -155,7 +157,7 @@ func WriteReplay(w World, o ExecOpts, c *RunCtx, shrink bool) (string, *ReplayFi
 	v := c.Violation()
 	tape := c.Used()
 	rf := &ReplayFile{Property: v.Property, World: w.Name(), Tier: o.Tier, Seed: o.Seed, Run: o.RunIdx,
-		Focus: v.Focus, OrigTapeLen: len(tape)}
+		Focus: v.Focus, OrigTapeLen: len(tape), Procs: runtime.GOMAXPROCS(0)}
 	if shrink {
 		tape, rf.ShrinkExecs = Shrink(w, o, tape, v.Focus, v.Class(), 2000, time.Now().Add(45*time.Second))
 	}
@@ -200,6 +202,9 @@ func Replay(path string) (bool, string, *ReplayFile) {
 		return false, "world " + rf.World + " not in this binary", &rf
 	}
 	setupWorker(w)
+	if rf.Procs > 0 && os.Getenv("VERIF_FORCE_GOMAXPROCS") == "" {
+		runtime.GOMAXPROCS(rf.Procs)
+	}
 	o := ExecOpts{Tier: rf.Tier, Seed: rf.Seed, RunIdx: rf.Run, Tape: rf.Tape, Focus: rf.Focus, Verbose: true}
 	if rf.FromSeed {
 		o.Tape = nil
